@@ -1,6 +1,7 @@
 import Proofs.PrebuildFuel
 import Proofs.PrebuildCanon
 import Proofs.PrebuildFlatStmt   -- FLAT: the flat population between the two walkers
+import Proofs.SgShape            -- source tie of the text generator (builder sg-shape): appended section at the end
 
 /-!
   C05 — Prebuild followed by text generation reproduces the program.
@@ -163,12 +164,13 @@ example : regenVal ((buildExpr flatFc flatE flatSt).2.pop ++ [Flat.Row.brk 0]) 9
 /-- BODY level, for the sub-subset `coreB`: statement lists (any length) of return (with / without a `coreE` value),
     assignment to a variable (first assignment declares the transient) or to an attribute with a `coreE` right-hand
     side, break, continue, control stop, create with / without variable, select any|many from instances, delete,
-    relate / unrelate (+ using), with variable / instance names other than `self`: reading the population
+    relate / unrelate (+ using), and `while` loops over such lists (nested to any depth: a new ACT_BLK per loop, R608,
+    its own R602 / R661 chain, an empty body included), with variable / instance names other than `self`: reading the population
     `prebuildFlat` builds back with `regenFlat` (outer block R666, R602 first-statement filter, R603 subtype dispatch,
     R661 successor chain to its end, variables through the symbol table) prints `genTokens`.
     `flatOk`: the builder never failed (the flag is never set back: `okAll_of_flatOk`).
-    MISSING for the full `regen_of_prebuild`: select from … where, for each, while, if / elif / else
-    (nested blocks: R605 / R607 / R608 / R658 / R606, R682 / R683), `self` as an instance name. -/
+    MISSING for the full `regen_of_prebuild`: select from … where, for each, if / elif / else
+    (R605 / R607 / R658 / R606, R682 / R683), `self` as an instance name. -/
 theorem regen_of_prebuild_partial (fc : FCtx) (a : Block) (hc : coreB a = true) (hok : flatOk fc a = true) :
     regenFlat (prebuildFlat fc a) = genTokens a :=
   regenFlat_prebuildFlat fc a hc (okAll_of_flatOk fc a hc hok)
@@ -212,6 +214,17 @@ def coreBody3 : Block :=
 example : regenFlat (prebuildFlat flatFc coreBody3) = genTokens coreBody3 :=
   regen_of_prebuild_partial flatFc coreBody3 (by decide) (by decide)
 
+/-- `n = 0; while (n < 10) n = n + 1; while (true) end while; break; end while; return n;` (a loop in a loop, an empty body) -/
+def coreBody4 : Block :=
+  .cons (.assign (.var "n") (.int "0"))
+  (.cons (.while_ (.bin (.var "n") "<" (.int "10"))
+      (.cons (.assign (.var "n") (.bin (.var "n") "+" (.int "1")))
+      (.cons (.while_ (.bool "true") .nil) (.cons .brk .nil))))
+  (.cons (.ret (some (.var "n"))) .nil))
+
+example : regenFlat (prebuildFlat flatFc coreBody4) = genTokens coreBody4 :=
+  regen_of_prebuild_partial flatFc coreBody4 (by decide) (by decide)
+
 /-- a TEST of the full statement on one body (if / elif / else, while, for each, select, relate): evaluation, no proof -/
 def flatBody : Block :=
   .cons (.selFrom "many" "ds" "DOG")
@@ -230,5 +243,147 @@ set_option maxRecDepth 100000 in
 example : regenFlat (prebuildFlat flatFc flatBody) = genTokens flatBody := by decide
 
 end Flat
+
+end PyxProps.C05
+
+/-! ==========================================================================================================
+  SOURCE TIE of the text generator (builder sg-shape): `regen*` of PyxModel/Prebuild/Flat.lean = the generic interpretation
+  (Proofs/SgShape.lean) of the IR that translator/gen_sgshape.py regenerates from bridgepoint/sourcegen.py on every run
+  (Gen/SgShape.lean: one statement list per `ActionTextGenWalker.accept_*`) — appended section
+  ========================================================================================================== -/
+namespace PyxProps.C05
+open Pyx.Prebuild Pyx.Prebuild.Flat Pyx.SgShape Pyx.Gen.SgShape
+
+/-! Every theorem below holds for EVERY population (no well-formedness hypothesis): where the hand-written printer answers
+    `bad` (a supertype row without subtype row, an ACT_SMT whose subtype is an elif / else clause, no outer block, a variable
+    link that names no V_VAR) the equation says so in its `else` branch — the real code prints nothing there (`accept(None)`),
+    or the clause; no population `prebuild.py` creates has such a row.  Recursive calls go through the accept oracle
+    (`accHead`: the printer itself, one unit of fuel lower), loops through the `again` / `loop` oracles, exactly as `rec` in
+    the C04 tie.  Kind: spec_equation (each is proved by unfolding both sides on every row constructor); what they add is that
+    the right-hand side is REGENERATED from the source text. -/
+
+/-- accept_V_VAR: the Name is written (the lexer makes the keyword of `self`) -/
+theorem variable_as_in_source (q : FlatPop) (f v : Nat) :
+    regenVar q v = if isVar q v then handler (envN q f 0) accept_V_VAR (.sup "V_VAR" v) else [Tok.bad "V_VAR"] :=
+  regenVar_eq q (envN q f 0) rfl v
+
+/-- accept_V_VAL and the handler of every value subtype Flat.lean models (V_LIN V_LRL V_LST V_LBO V_TVL V_IRF V_ISR V_UNY
+    V_BIN V_SLR V_AVL V_PVL V_LEN V_SCV), dispatched by class name: `subtype(inst, 801)`; literals print Value (quoted /
+    lower-cased as the source says); a unary operation is '(' Operator ' ' the R804 operand ')', a binary one '(' the R802
+    operand ' ' Operator ' ' the R803 operand ')'; an attribute value is the R807 root, '.', the R806 attribute's Name;
+    'param.' and the parameter's Name; data type / constant group Name '::' Name -/
+theorem value_as_in_source (q : FlatPop) (f v : Nat) :
+    regenVal q (f + 1) v =
+      if (valSub q v).isSome then handler (envN q f 2) accept_V_VAL (.sup "V_VAL" v) else [Tok.bad "V_VAL"] :=
+  regenVal_eq q f v
+
+/-- accept_ACT_SMT (`subtype(inst, 603)`, then ';') and the handler of every statement subtype Flat.lean models: ACT_AI
+    ('assign ' — no R801 V_MSV under the R609 value —, the R689 value, ' = ', the R609 value), ACT_RET, ACT_BRK, ACT_CON, ACT_CTL,
+    ACT_CR (R633 variable, R671 class), ACT_CNV, ACT_DEL, ACT_REL / ACT_UNR (R615 R616 R653 / R620 R621 R655, the phrase only
+    when non-empty), ACT_RU / ACT_URU (… then ' using ' and the R619 / R624 variable), ACT_FIO, ACT_FIW (+ ' where ' R610),
+    ACT_FOR (R614 ' in ' R652, block R605, 'end for'), ACT_WHL, ACT_IF (R625, R607, the R682 clauses through the loop oracle,
+    the R683 clause → accept_ACT_E: 'else' and its R606 block, 'end if') -/
+theorem statement_as_in_source (q : FlatPop) (f s : Nat) :
+    regenSmt q (f + 1) s ++ [Tok.p .semi] =
+      if (smtSub q s).isSome && !isElifOrElse q s then handler (envN q f 2) accept_ACT_SMT (.sup "ACT_SMT" s)
+      else [Tok.bad "ACT_SMT", Tok.p .semi] :=
+  regenSmt_eq q f s
+
+/-- the successor loop of accept_ACT_BLK, one round: `while act_smt: self.accept(act_smt); act_smt =
+    one(act_smt).ACT_SMT[661, 'precedes']()`; the rounds that follow are `regenChain` one unit of fuel lower -/
+theorem successor_loop_as_in_source (q : FlatPop) (f : Nat) (cur : Option Nat) :
+    (whileOf accept_ACT_BLK).map (fun vb => (runStm (chainEnv q f vb.1) (.whileLoc vb.1 vb.2) [(vb.1, curPV cur)]).2) =
+      some (regenChain q (f + 1) cur) :=
+  regenChain_eq q f cur
+
+/-- accept_ACT_BLK: the first statement is `one(inst).ACT_SMT[602](first_filter)` with the filter closure of the source (no
+    R661 'succeeds' predecessor, no R603 ACT_EL, no R603 ACT_E) = `firstStmt`, then the successor loop; level and line breaks
+    print no token -/
+theorem block_as_in_source (q : FlatPop) (f b : Nat) :
+    regenBlk q (f + 2) b = handler (chainEnv q f "act_smt") accept_ACT_BLK (.sup "ACT_BLK" b) ∧
+    evalNav q (blkLocals b) (.one "inst" [⟨"ACT_SMT", 602, ""⟩] (some "first_filter")) = curPV (firstStmt q b) ∧
+    filterOf accept_ACT_BLK = some ("first_filter", "sel", firstFilterConj) :=
+  ⟨regenBlk_eq q f b, first_nav q b, rfl⟩
+
+/-- the elif loop of accept_ACT_IF, one round: `for act_el in sorted(many(inst).ACT_EL[682](), key=by_position):
+    self.accept(act_el)` → accept_ACT_EL: 'elif ', the R659 value, the R658 block; the rounds that follow are `regenElifs` one
+    unit of fuel lower; the key is (LineNumber, StartPosition) of the clause's R603 ACT_SMT.  Hypothesis: the rows are ACT_EL
+    rows — what `many(inst).ACT_EL[682]()` = `elifsOf` delivers (second part) -/
+theorem elif_loop_as_in_source (q : FlatPop) (f s : Nat) (l : List Row) (hl : ∀ r ∈ l, ∃ a blk v i, r = Row.el a blk v i) :
+    (forOf accept_ACT_IF).map (fun x => forStep (envN q f 1) x.1 x.2.2.2 [] (l.map .sub)) = some (regenElifs q (f + 1) l) ∧
+    (∀ r ∈ elifsOf q s, ∃ a blk v i, r = Row.el a blk v i) ∧
+    keyOf accept_ACT_IF = some ("by_position", "inst",
+      [(.one "inst" [⟨"ACT_SMT", 603, ""⟩] none, "LineNumber"), (.one "inst" [⟨"ACT_SMT", 603, ""⟩] none, "StartPosition")]) :=
+  ⟨regenElifs_eq q f l hl, elifsOf_isEl q s, rfl⟩
+
+/-- accept_ACT_ACT: the R666 block; gen_text_action starts the walker at level -1 -/
+theorem action_as_in_source (q : FlatPop) :
+    regenFlat q = (if (outerBlk q).isSome then handler { q := q, acc := accHead q (q.length + 1) } accept_ACT_ACT .act
+      else [Tok.bad "ACT_BLK"]) ∧ initialLevel = -1 :=
+  ⟨regenFlat_eq q, rfl⟩
+
+/-! non-vacuity: the generic interpreter RUNS the generated IR on a concrete population and produces the tokens; and it is no
+    renaming of `regen*` — on statement structures OTHER than the generated ones (hand-made mutations) it computes other
+    token lists, so the equalities above are not equalities that any IR would satisfy -/
+
+/-- `relate a to b across R1.'p' using c; return (1 + (- 2)); if (1) elif (2) else end if;` as prebuild.py lays it out -/
+def sgPop : FlatPop :=
+  [.blk true, .var "a" 0, .var "b" 0, .var "c" 0,
+   .smt 0 none, .ru 4 1 2 3 "R1" "'p'",
+   .smt 0 (some 4), .val 0, .lin 7 "1", .val 0, .lin 9 "2", .val 0, .uny 11 "-" 9, .val 0, .bin 13 "+" 7 11, .ret 6 (some 13),
+   .smt 0 (some 6), .blk false, .if_ 16 17 7, .smt 0 none, .blk false, .el 19 20 9 16, .smt 0 none, .blk false, .e 22 23 16]
+
+example : regenFlat sgPop =
+    [.kw .relate, .ident "a", .kw .to, .ident "b", .kw .across, .ident "R1", .p .dot, .phrase "'p'", .kw .using_, .ident "c",
+     .p .semi, .kw .return_, .p .lpar, .num "1", .p .plus, .p .lpar, .p .minus, .num "2", .p .rpar, .p .rpar, .p .semi,
+     .kw .if_, .num "1", .kw .elif_, .num "2", .kw .else_, .endIf, .p .semi] := by decide +kernel
+example : (outerBlk sgPop).isSome = true ∧ (valSub sgPop 13).isSome = true ∧
+    ((smtSub sgPop 4).isSome && !isElifOrElse sgPop 4) = true ∧ ((smtSub sgPop 16).isSome && !isElifOrElse sgPop 16) = true ∧
+    isVar sgPop 3 = true := by decide +kernel
+example : regenVal sgPop 3 13 = handler (envN sgPop 2 2) accept_V_VAL (.sup "V_VAL" 13) := by
+  rw [value_as_in_source]; rfl
+example : regenSmt sgPop 4 16 ++ [Tok.p .semi] = handler (envN sgPop 3 2) accept_ACT_SMT (.sup "ACT_SMT" 16) := by
+  rw [statement_as_in_source]; rfl
+example : regenFlat sgPop = handler { q := sgPop, acc := accHead sgPop (sgPop.length + 1) } accept_ACT_ACT .act := by
+  rw [(action_as_in_source sgPop).1]; rfl
+example : (forOf accept_ACT_IF).map (fun x => forStep (envN sgPop 2 1) x.1 x.2.2.2 [] ((elifsOf sgPop 16).map .sub)) =
+    some (regenElifs sgPop 3 (elifsOf sgPop 16)) :=
+  (elif_loop_as_in_source sgPop 2 16 _ (elifsOf_isEl sgPop 16)).1
+
+/-- the generated handlers, interpreted: the binary operation, the relate-using statement, the if statement -/
+example : handler (envN sgPop 2 1) accept_V_BIN (.sub (.bin 13 "+" 7 11)) =
+      [.p .lpar, .num "1", .p .plus, .p .lpar, .p .minus, .num "2", .p .rpar, .p .rpar] ∧
+    handler (envN sgPop 2 1) accept_ACT_RU (.sub (.ru 4 1 2 3 "R1" "'p'")) =
+      [.kw .relate, .ident "a", .kw .to, .ident "b", .kw .across, .ident "R1", .p .dot, .phrase "'p'", .kw .using_, .ident "c"] ∧
+    handler (envN sgPop 3 1) accept_ACT_IF (.sub (.if_ 16 17 7)) =
+      [.kw .if_, .num "1", .kw .elif_, .num "2", .kw .else_, .endIf] := by decide +kernel
+
+/-- hand-mutated IRs give OTHER token lists: the operands of a binary operation printed right before left; the `using` and the
+    `to` variable swapped; the parentheses dropped around a unary operation; 'elif ' written by the else clause; the successor
+    loop walking R661 in the other direction (the block then prints its first statement only) -/
+example : handler (envN sgPop 2 1)
+      [.buf [.lit "("], .accept (.one "inst" [⟨"V_VAL", 803, ""⟩] none), .buf [.lit " ", .attr "inst" "Operator", .lit " "],
+       .accept (.one "inst" [⟨"V_VAL", 802, ""⟩] none), .buf [.lit ")"]] (.sub (.bin 13 "+" 7 11)) =
+      [.p .lpar, .p .lpar, .p .minus, .num "2", .p .rpar, .p .plus, .num "1", .p .rpar] ∧
+    handler (envN sgPop 2 1)
+      [.buf [.lit "relate "], .accept (.one "inst" [⟨"V_VAR", 617, ""⟩] none), .buf [.lit " to "],
+       .accept (.one "inst" [⟨"V_VAR", 619, ""⟩] none), .assign "r_rel" (.one "inst" [⟨"R_REL", 654, ""⟩] none),
+       .buf [.lit " across R", .attrStr "r_rel" "Numb"],
+       .ite (.attr "inst" "relationship_phrase") [.buf [.lit ".", .attr "inst" "relationship_phrase"]] [],
+       .buf [.lit " using "], .accept (.one "inst" [⟨"V_VAR", 618, ""⟩] none)] (.sub (.ru 4 1 2 3 "R1" "'p'")) =
+      [.kw .relate, .ident "a", .kw .to, .ident "c", .kw .across, .ident "R1", .p .dot, .phrase "'p'", .kw .using_, .ident "b"] ∧
+    handler (envN sgPop 2 1)
+      [.buf [.attr "inst" "Operator", .lit " "], .accept (.one "inst" [⟨"V_VAL", 804, ""⟩] none)] (.sub (.uny 11 "-" 9)) =
+      [.p .minus, .num "2"] ∧
+    handler (envN sgPop 2 0) [.buf [.lit "elif "], .accept (.one "inst" [⟨"ACT_BLK", 606, ""⟩] none)] (.sub (.e 22 23 16)) =
+      [.kw .elif_] ∧
+    handler (chainEnv sgPop 20 "act_smt")
+      [.defFilter "first_filter" "sel" firstFilterConj, .assign "act_smt" (.one "inst" [⟨"ACT_SMT", 602, ""⟩] (some "first_filter")),
+       .whileLoc "act_smt" [.accept (.loc "act_smt"), .assign "act_smt" (.one "act_smt" [⟨"ACT_SMT", 661, "succeeds"⟩] none)]]
+      (.sup "ACT_BLK" 0) =
+      [.kw .relate, .ident "a", .kw .to, .ident "b", .kw .across, .ident "R1", .p .dot, .phrase "'p'", .kw .using_, .ident "c",
+       .p .semi] ∧
+    handler (envN sgPop 2 0) [.buf [.lit "return"], .accept (.one "inst" [⟨"V_VAL", 668, ""⟩] none)] (.sub (.ret 6 none)) =
+      [.bad "return"] := by decide +kernel
 
 end PyxProps.C05
